@@ -1062,9 +1062,16 @@ def oracle(case, log, payload):
             elif n == "field-":
                 ends.setdefault(p, []).append(i)
         finished = {e[1] for e in log if e[0] in ("ret", "raise")}
+        names = [n for n, _p in hooks]
+        if any(n.startswith("field") for n in names):
+            lo = names.index("execution+") if "execution+" in names else None
+            hi = names.index("execution-") if "execution-" in names else None
+            fidx = [i for i, n in enumerate(names) if n.startswith("field")]
+            if lo is None or hi is None or min(fidx) < lo or max(fidx) > hi:
+                late = [pstr(hooks[i][1]) + names[i][-1] for i in fidx if hi is not None and i > hi][:3]
+                bad.append(("field-hook-outside-execution-stage:%s:%s" % ("after-end" if late else "other", cfg),
+                            "field hooks fire outside on_execution_start .. on_execution_end: %s" % (late or names[:12])))
         for p in set(starts) | set(ends):
-            if aborted and len(starts.get(p, [])) == 1 and not ends.get(p) and p not in finished and not sync_cfg:
-                continue        # request aborted by another field while this resolver was still pending: it was never resolved
             if len(starts.get(p, [])) != 1 or len(ends.get(p, [])) != 1:
                 bad.append(("field-hooks-count:%d+%d-:%s" % (len(starts.get(p, [])), len(ends.get(p, [])), cfg),
                             "field %s: %d start hooks, %d end hooks" % (pstr(p), len(starts.get(p, [])), len(ends.get(p, [])))))
@@ -1081,8 +1088,8 @@ def oracle(case, log, payload):
     for p in called:
         c = idx[("call", p)]
         done = idx.get(("ret", p), []) + idx.get(("raise", p), [])
-        if aborted and not sync_cfg and not done:
-            continue            # still pending when another field aborted the request
+        if aborted and cfg == "asyncio" and not done:
+            continue            # cancelled by the runtime when another field aborted the request: invoked, never returns (its END hook must still fire)
         if len(c) != 1 or len(done) != 1:
             bad.append(("resolver-calls:%d:%s" % (len(c), cfg), "field %s: resolver invoked %d times, finished %d times" % (pstr(p), len(c), len(done))))
             continue
@@ -1191,8 +1198,6 @@ def tracer_oracle(case, log, payload):
         bad.append(("tracer-resolvers:%s" % tag, "tracing resolvers %r differ from the started fields %r" % ([r["path"] for r in res], started)))
     for r in res:
         if not isinstance(r.get("duration"), int) or not isinstance(r.get("startOffset"), int):
-            if has_abort(case["fields"]) and case["config"] in ("threadpool", "asyncio"):
-                continue        # a resolver still pending when another field aborted the request
             bad.append(("tracer-resolver-open:%s" % tag, "tracing resolver entry without duration: %r" % (r,)))
             break
     return bad
@@ -1205,7 +1210,8 @@ def compare(case, real, model):
     """-> None or (signature, what)"""
     cfg = case["config"]
     if has_abort(case["fields"]) and cfg in ("threadpool", "asyncio"):
-        return None     # which sibling resolvers still run after the abort depends on the runtime: only the direct oracle applies
+        return None     # whether siblings in flight are cancelled (asyncio) or waited for (thread pool) depends on the runtime: only the
+        #                 direct oracle applies (every started field ended exactly once, inside the execution stage)
     if cfg != "asyncio":
         if real != model:
             i = 0
@@ -1447,6 +1453,20 @@ def exhaustive_cases():
                 out.append({"config": cfg, "outcome": "exec", "doc_is_text": bool(n % 2), "serial": serial, "novalidate": False,
                             "use_var": False, "mws": n % 3, "instr": [0, 1] if n % 2 else 0, "tracer": n % 4 == 0,
                             "fields": with_abort(where), "sched": [n % 3, 1, 0] + [0] * 9})
+    # { slow abort }: a deferred field aborts the request while deferred siblings are in flight; either may complete first
+    def lf(k, f, o="ret"):
+        return {"k": k, "f": f, "sel": [], "o": o, "c": {"t": "leaf" if o == "ret" else "null"}}
+    for cfg in CONFIGS:
+        for executor_serial in (False, True):
+            for first in (0, 1, 2):
+                for shape in ("flat", "nested"):
+                    if shape == "flat":
+                        fs = [lf("slow", "vd"), lf("abort", "sd", "abort"), lf("slow2", "vd")]
+                    else:
+                        fs = [{"k": "p", "f": "nd", "sel": [{"k": "slow", "f": "vd", "sel": []}, {"k": "abort", "f": "vd", "sel": []}],
+                               "o": "ret", "c": {"t": "obj", "fs": [lf("slow", "vd"), lf("abort", "vd", "abort")]}}, lf("other", "vd")]
+                    out.append({"config": cfg, "outcome": "exec", "doc_is_text": True, "serial": executor_serial, "novalidate": False,
+                                "use_var": False, "mws": 1, "instr": [0, 1], "tracer": True, "fields": fs, "sched": [first, first, 0] + [0] * 9})
     # root selection sets that collect to NOTHING (every field excluded, each way of excluding), empty sub-selections after skipping
     def skipped(nd, kind):
         d = copy.deepcopy(nd)
